@@ -335,7 +335,9 @@ func c17Fence(c *Ctx, p *Prog) {
 		var lowOK, highOK *bool
 		var loSym, hiSym, elem *Sym
 		var other []string
-		for k, v := range o.Assign {
+		for _, k := range o.AtomKeys() {
+			v := o.Assign[k]
+			_ = v
 			s := o.AtomSyms[k]
 			vv := v
 			switch {
@@ -477,7 +479,9 @@ func c17Rows(c *Ctx, p *Prog) {
 		wrongDirection := ""
 		unknown := ""
 		infeasible := false
-		for k, v := range o.Assign {
+		for _, k := range o.AtomKeys() {
+			v := o.Assign[k]
+			_ = v
 			s := o.AtomSyms[k]
 			vv := v
 			str := s.String()
@@ -947,7 +951,9 @@ func c17Percentile(c *Ctx, p *Prog) {
 			}
 			// only the unweighted branch
 			weighted := false
-			for ak, av := range o.Assign {
+			for _, ak := range o.AtomKeys() {
+				av := o.Assign[ak]
+				_ = av
 				as := o.AtomSyms[ak]
 				if strings.Contains(ak, "Weights") && as.Op == "binop" && ((as.Tok == token.EQL && !av) || (as.Tok == token.NEQ && av)) {
 					weighted = true
